@@ -438,6 +438,14 @@ where
                 );
                 if enqueued {
                     self.piece_refs.push(piece);
+                } else {
+                    // The entry is dropped: an older copy of it must not stay readable.
+                    let hash = piece.hash();
+                    self.indexer.insert_tombstone(hash, sequence);
+                    self.tombstone_infos.push(TombstoneInfo {
+                        tombstone: Tombstone { hash, sequence },
+                        stats: None,
+                    });
                 }
                 report(enqueued);
                 self.submit_queue_size.fetch_sub(estimated_size, Ordering::Relaxed);
